@@ -283,6 +283,8 @@ def run_concurrent(sim, specs, chooser, shared_prefixes=()):
         r.prompted = []
         r.stdin_read = p.stdio.inb.tell() > 0
         sim.log.append(r.as_log())
+        if r.exit == -99:
+            sim.hung.append((r.argv, r.nops, r.errs[-300:]))
         sim.ops_total += r.nops
         sim.sims_total += 1
         results.append(r)
